@@ -263,7 +263,7 @@ theorem noFresh_withCache (h : Bytes) (n : Hd) (hm : n.isMem = true) :
   cases n <;> simp_all [Hd.withCache, noFresh, Hd.isMem]
 
 theorem needs_withCache {h : Bytes} {n : Hd} {pre : Nibs} {pos : Pos} (hm : n.isMem = true)
-    (hn : Needs (n.withCache h) pre pos) : pos = .node pre ∨ Needs n pre pos := by
+    (hn : Needs (n.withCache h) pre pos) : Below pre pos ∨ Needs n pre pos := by
   cases n with
   | leaf c pk dv =>
     simp only [Hd.withCache, Needs] at hn ⊢
@@ -300,10 +300,10 @@ theorem not_needs_self {n : Hd} {pre : Nibs} (hc : n.cached = none) (hm : n.isMe
   | empty _ => simp [Hd.isMem] at hm
 
 theorem needs_self_of_cached {n : Hd} {pre : Nibs} {h : Bytes} (hc : n.cached = some h)
-    (hm : n.isMem = true) : Needs n pre (.node pre) := by
+    (hm : n.isMem = true) {pos : Pos} (hb : Below pre pos) : Needs n pre pos := by
   cases n with
-  | leaf c pk dv => simp only [Hd.cached] at hc; simp [Needs, hc]
-  | branch c pk dvo cs => simp only [Hd.cached] at hc; simp [Needs, hc]
+  | leaf c pk dv => simp only [Hd.cached] at hc; simp [Needs, hc, hb]
+  | branch c pk dvo cs => simp only [Hd.cached] at hc; simp [Needs, hc, hb]
   | none => simp [Hd.isMem] at hm
   | persisted _ => simp [Hd.isMem] at hm
   | empty _ => simp [Hd.isMem] at hm
@@ -394,8 +394,8 @@ theorem wrap_post {ver : Ver} {H : Bytes → Bytes} {T0 : Trie} {pre : Nibs} {st
       · have hmem := hp.mem
         cases n <;> simp [Hd.withCache, Hd.isMem] at hmem ⊢
       · intro pos hn
-        rcases needs_withCache hp.mem hn with rfl | hn
-        · exact needs_self_of_cached hc hm
+        rcases needs_withCache hp.mem hn with hb | hn
+        · exact needs_self_of_cached hc hm hb
         · exact hp.mono pos hn
       · intro _
         exact ⟨rfl, fun _ => ⟨(noFresh_withCache h n hp.mem).mpr hnf', htar⟩⟩
